@@ -206,8 +206,9 @@ def broadcast(rng, tier):
                         fails.append(dict(clause='broadcast_raises', signature=f'{gname}.{oname} {s1}x{s2}', error=f'{type(e).__name__}: {e}'[:160])); continue
                     evals += 1
                     rt = r.tensor() if hasattr(r, 'ltype') else r
-                    if tuple(rt.shape[:-1]) != tuple(out):
-                        fails.append(dict(clause='broadcast_shape', signature=f'{gname}.{oname} {s1}x{s2}', got=list(rt.shape), want=list(out))); continue
+                    width = {'Mul': X.shape[-1], 'Retr': X.shape[-1], 'Act': 3, 'Act4': 4}.get(oname, a.shape[-1])
+                    if tuple(rt.shape) != tuple(out) + (width,):          # the documented shape: broadcast lshape + item width, also for empty batches
+                        fails.append(dict(clause='broadcast_shape', signature=f'{gname}.{oname} {s1}x{s2}', got=list(rt.shape), want=list(out) + [width])); continue
                     if is_lie != hasattr(r, 'ltype'):
                         fails.append(dict(clause='result_ltype', signature=f'{gname}.{oname}')); continue
                     if rt.numel() == 0: continue
@@ -222,8 +223,9 @@ def broadcast(rng, tier):
                 for oname, f in (('Inv', lambda z: z.Inv()), ('Log', lambda z: z.Log()), ('matrix', lambda z: z.matrix())):
                     r = f(X); evals += 1
                     rt = r.tensor() if hasattr(r, 'ltype') else r
-                    lead = rt.shape[:-1] if oname != 'matrix' else rt.shape[:-2]
-                    if tuple(lead) != tuple(s1): fails.append(dict(clause='unary_shape', signature=f'{gname}.{oname} {s1}'))
+                    msz = 4 if gname in ('SE3', 'Sim3') else 3
+                    want = tuple(s1) + ((msz, msz) if oname == 'matrix' else (X.shape[-1],) if oname == 'Inv' else (X.shape[-1] - 1,))
+                    if tuple(rt.shape) != want: fails.append(dict(clause='unary_shape', signature=f'{gname}.{oname} {s1}', got=list(rt.shape), want=list(want)))
             if len(fails) > 10: break
         if len(fails) > 10: break
     return dict(evaluations=evals, distinct_nontrivial=pairs, rule='all ordered pairs of lshapes from the stated set that torch can broadcast; each (group, op, pair) is one evaluation; non-trivial: every pair',
